@@ -75,8 +75,16 @@ type c10Handed struct {
 // c10TrackConn wraps the proxy's end so that the harness knows whether the proxy closed it.
 type c10TrackConn struct {
 	net.Conn
-	mu     sync.Mutex
-	closed bool
+	mu       sync.Mutex
+	closed   bool
+	writeErr error // when set, every Write fails with exactly this error
+}
+
+func (c *c10TrackConn) Write(b []byte) (int, error) {
+	if c.writeErr != nil {
+		return 0, c.writeErr
+	}
+	return c.Conn.Write(b)
 }
 
 func (c *c10TrackConn) Close() error {
@@ -120,6 +128,7 @@ func c10Run(t *testing.T, c c10Case) (res c10Result) {
 			cp := &c10ConnProvider{attempts: make(chan *c10Attempt), closeCh: make(chan struct{})}
 			context.AfterFunc(ctx, func() { close(cp.closeCh) })
 			sessionErrNext := false
+			var killBeforeAdd *c10Handed
 			var smu sync.Mutex
 			sessionFn := func(conn net.Conn) (*yamux.Session, error) {
 				smu.Lock()
@@ -138,7 +147,19 @@ func c10Run(t *testing.T, c c10Case) (res c10Result) {
 			}
 			var prov *muxProvider
 			mgrI, err := NewCustomMultiMuxManager(ctx, "vf", func(cb AddNewMux, lifetime context.Context) (MuxProvider, error) {
-				p := NewMuxProvider(lifetime, "vf", cp, sessionFn, int64(c.N), cb, []string{"vf", "vf", "vf"}, log.NewNoopLogger())
+				wrapped := func(sess *yamux.Session, conn net.Conn) {
+					smu.Lock()
+					h := killBeforeAdd
+					killBeforeAdd = nil
+					smu.Unlock()
+					if h != nil {
+						_ = h.peer.Close()
+						_ = h.far.Close()
+						<-sess.CloseChan() // the session has noticed that its peer is gone before it gets registered
+					}
+					cb(sess, conn)
+				}
+				p := NewMuxProvider(lifetime, "vf", cp, sessionFn, int64(c.N), wrapped, []string{"vf", "vf", "vf"}, log.NewNoopLogger())
 				prov = p.(*muxProvider)
 				return p, nil
 			}, []session.StartManagedComponentFn{}, []OnConnectionListUpdate{onConnectionNoOp}, log.NewNoopLogger())
@@ -214,6 +235,34 @@ func c10Run(t *testing.T, c c10Case) (res c10Result) {
 				case "eof":
 					failureKinds[how] = true
 					_ = far.Close()
+				case "writeEOF":
+					// the transport reports io.EOF on the very first write (what the provider's "remote immediately
+					// disconnected" branch is written for)
+					failureKinds[how] = true
+					tc.writeErr = io.EOF
+					go func() {
+						buf := make([]byte, 256)
+						for {
+							if _, err := far.Read(buf); err != nil {
+								return
+							}
+						}
+					}()
+				case "diesBeforeRegistration":
+					// healthy handshake, but the peer disappears between the successful ping and the registration
+					failureKinds[how] = true
+					cfg := yamux.DefaultConfig()
+					cfg.LogOutput = io.Discard
+					var ps *yamux.Session
+					if c.Server {
+						ps, _ = yamux.Client(far, cfg)
+					} else {
+						ps, _ = yamux.Server(far, cfg)
+					}
+					h.peer = ps
+					smu.Lock()
+					killBeforeAdd = h
+					smu.Unlock()
 				case "silent":
 					failureKinds[how] = true
 					// never reads, never writes: the proxy's ping write times out
@@ -307,7 +356,7 @@ func c10Run(t *testing.T, c c10Case) (res c10Result) {
 				}
 				poll()
 				// time for handshakes / ping time-outs to resolve
-				if o.K == "serve" && (o.How == "silent" || o.How == "garbage" || o.How == "eof") {
+				if o.K == "serve" && (o.How == "silent" || o.How == "garbage" || o.How == "eof" || o.How == "writeEOF" || o.How == "diesBeforeRegistration") {
 					time.Sleep(15 * time.Second)
 					poll()
 				}
@@ -399,7 +448,7 @@ const c10Rule = "the real muxProvider + multiMuxManager + ManagedMuxSession with
 func c10Gen(t *rapid.T) c10Case {
 	c := c10Case{N: rapid.IntRange(1, 4).Draw(t, "n"), Server: rapid.Bool().Draw(t, "server")}
 	n := rapid.IntRange(1, vfshared.Scale(14, 30)).Draw(t, "nops")
-	hows := []string{"healthy", "healthy", "healthy", "dialErr", "sessionErr", "eof", "silent", "garbage"}
+	hows := []string{"healthy", "healthy", "healthy", "dialErr", "sessionErr", "eof", "silent", "garbage", "writeEOF", "diesBeforeRegistration"}
 	for i := 0; i < n; i++ {
 		x := rapid.IntRange(0, 99).Draw(t, "op")
 		switch {
